@@ -15,7 +15,8 @@ import numpy as np
 
 from . import c12 as _c12
 
-RULE = ('structured matrices with pendant states / self-plus-one states / nearly closed pairs (see C12) and '
+RULE = ('sparse inputs with un-summed repeated entries (coo from transition lists incl. the real '
+        'assigns_to_counts output, non-canonical csr/csc), structured matrices with pendant states / self-plus-one states / nearly closed pairs (see C12) and '
         'random non-negative integer (and a few dyadic real) count matrices with 1..8 states, positive '
         'row sums and a strongly connected graph (random Hamiltonian cycle laid over the draw); each is '
         'passed to normalize, transpose and mle as ndarray and as the 7 scipy sparse *matrix* formats, '
@@ -141,17 +142,34 @@ def to_dense(obj):
     return np.asarray(obj)
 
 
+_PREBUILT = {}        # dense bytes -> the coo_matrix the real assigns_to_counts returned for it
+
+
+def base_cont(cont):
+    """scipy/numpy type name of a container variant ('coo_matrix+dups' -> 'coo_matrix')"""
+    return cont.split('+')[0]
+
+
 def make_container(C, cont):
+    """variants: '<fmt>_matrix+dups' holds un-summed repeated (row, col) entries,
+    'coo_matrix+assigns' is a copy of what assigns_to_counts returned for this count matrix"""
     import scipy.sparse as sp
     if cont == 'ndarray':
         return C.copy()
+    if cont.endswith('+assigns'):
+        pre = _PREBUILT.get(np.asarray(C, dtype=float).tobytes())
+        if pre is not None:
+            return pre.copy()
+        return _c12.sparse_with_duplicates(C, 'coo')
+    if cont.endswith('+dups'):
+        return _c12.sparse_with_duplicates(C, base_cont(cont)[:3])
     return getattr(sp, cont)(C)
 
 
 def snapshot(obj):
     import scipy.sparse as sp
     if sp.issparse(obj):
-        d = obj.toarray()
+        d = obj.copy().toarray()
         return (type(obj).__name__, str(obj.dtype), obj.shape, d.tobytes(), obj.nnz)
     a = np.asarray(obj)
     return (type(obj).__name__, str(a.dtype), a.shape, a.tobytes())
@@ -182,7 +200,7 @@ def bsr_blocky(C, cont):
 
 
 def containers_request(builder, C, cont, prior, calc):
-    return {'op': 'C04.containers', 'n': len(C), 'builder': builder, 'container': cont,
+    return {'op': 'C04.containers', 'n': len(C), 'builder': builder, 'container': base_cont(cont),
             'prior': prior_kind(prior), 'calc': bool(calc), 'bsr_blocky': bsr_blocky(C, cont)}
 
 
@@ -201,7 +219,7 @@ def model_request(builder, C, prior, calc, cont='ndarray'):
                 'tol': _c12.bits(1e-10), 'max_iter': 10 ** 5}
     p = None if prior is None else (rat_rows(prior) if isinstance(prior, np.ndarray) else frac(prior))
     return {'op': 'C04.' + builder, 'n': n, 'C': rat_rows(C), 'prior': p, 'calc': bool(calc),
-            'prior_kind': prior_kind(prior), 'container': cont,
+            'prior_kind': prior_kind(prior), 'container': base_cont(cont),
             'int_dtype': int_dtype_after_prior(C, prior), 'bsr_blocky': bsr_blocky(C, cont)}
 
 
@@ -261,8 +279,9 @@ def check_call(ctx, C, builder, cont, prior, calc, mvals, mcont, dense_ref, zero
     # ---- containers
     cC, cT = container_name(Co), container_name(To)
     sparse_in = cont != 'ndarray'
+    cont_name = base_cont(cont)
     dense_names = ('ndarray', 'matrix')
-    ok_cont = (cC == cont and cT == cont) or \
+    ok_cont = (cC == cont_name and cT == cont_name) or \
               (sparse_in and pk != 'none' and cC in dense_names and cT in dense_names)
     if not ok_cont:
         ctx.violation('builders.%s: input container %s, prior %s -> returned containers (%s, %s)'
@@ -477,6 +496,20 @@ def run(ctx):
     for Cs in ([[0, 2, 0], [1, 3, 4], [0, 1, 0]], [[0, 3, 0, 0], [2, 0, 5, 0], [0, 1, 4, 2], [0, 0, 6, 0]]):
         ctx.tag('structured=hand')
         run_matrix(ctx, np.array(Cs, dtype=float), [None], ['ndarray', 'csr_matrix', 'lil_matrix'])
+    # sparse inputs with UN-SUMMED repeated (row, col) entries (coo from a transition list, csr/csc with
+    # has_canonical_format False) and the coo_matrix the real assigns_to_counts returns; all builders
+    dup_conts = ['ndarray', 'coo_matrix+dups', 'csr_matrix+dups', 'csc_matrix+dups']
+    for t in range(ctx.n(4, 40)):
+        n = 2 + (t % 6)
+        C = gen_counts(ctx.rng, n, ['int-sparse', 'int-dense', 'zero-diag', 'real'][t % 4])
+        ctx.tag('duplicate-entries')
+        run_matrix(ctx, C, [None, 1, ctx.rng.integers(0, 3, size=(n, n)).astype(float)], dup_conts)
+    for t in range(ctx.n(3, 30)):
+        A, C = _c12.counts_from_assignments(ctx.rng, 2 + (t % 5))
+        C = C.astype(float)
+        _PREBUILT[C.tobytes()] = A
+        ctx.tag('assigns_to_counts-output')
+        run_matrix(ctx, C, [None, 1], ['ndarray', 'coo_matrix+assigns'])
     # zero rows: the guard in _row_normalize (normalize only, no populations)
     for t in range(ctx.n(4, 30)):
         n = int(ctx.rng.integers(2, 7))
